@@ -38,7 +38,13 @@ def generate(rng, seed, index, tier):
     kw["iteration_limit"] = int(rng.choice([5, 30, 100], p=[0.2, 0.6, 0.2]))
     kw = gen.quiet_params(kw)
     obs = {"level": "CRITICAL", "callbacks": ["reenter"]} if rng.random() < 0.1 else None
-    return gen.base_world(seed, ID, index, spec, x0, y0, kw, obs=obs, case={"resolve": bool(rng.random() < 0.15), "faulted": bool(rng.random() < 0.5), "pts_seed": int(rng.integers(0, 2**31))})
+    clock = None
+    if rng.random() < 0.12:
+        # a deadline on a ticking clock: whatever is accepted in the iteration in which it expires is still an
+        # accepted step of the controller
+        kw["time_limit"] = float(rng.choice([0.5, 2.0, 6.0]))
+        clock = {"t0": gen.T0, "steps": [], "tail": float(rng.choice([0.05, 0.11, 0.3]))}
+    return gen.base_world(seed, ID, index, spec, x0, y0, kw, obs=obs, clock=clock, case={"resolve": bool(rng.random() < 0.15), "faulted": bool(rng.random() < 0.5), "pts_seed": int(rng.integers(0, 2**31))})
 
 
 def _nontrivial(ex, bump):
